@@ -450,6 +450,25 @@ def reset_toolkit_state():
                                 snap.append((v, ck, copy.deepcopy(cv)))
                             except Exception:
                                 pass
+            # mutable default arguments of functions and methods (def f(self, items = [])) are process-wide
+            # state of the same kind
+            funcs = []
+            for k, v in list(vars(mod).items()):
+                if isinstance(v, types.FunctionType) and v.__module__ == name:
+                    funcs.append(v)
+                elif isinstance(v, type) and getattr(v, "__module__", None) == name:
+                    for cv in vars(v).values():
+                        f = getattr(cv, "__func__", cv)
+                        if isinstance(f, types.FunctionType):
+                            funcs.append(f)
+            for f in funcs:
+                d, kd = f.__defaults__, f.__kwdefaults__
+                if (d and any(isinstance(x, mutable) for x in d)) or (kd and any(isinstance(x, mutable) for x in kd.values())):
+                    try:
+                        snap.append((f, "__defaults__", copy.deepcopy(d)))
+                        snap.append((f, "__kwdefaults__", copy.deepcopy(kd)))
+                    except Exception:
+                        pass
             _pristine[name] = snap
         else:
             for owner, k, v in _pristine[name]:
@@ -493,6 +512,13 @@ def make_app(argv=()):
     old_handlers = list(logging.getLogger().handlers)
     try:
         app = fake_trx.Application()
+    except Exception as e:       # noqa: the application does not come up with this command line
+        import traceback
+        from vlib.errors import AppStartFailure
+        tb = traceback.extract_tb(e.__traceback__)
+        where = next(("%s:%d in %s" % (os.path.basename(f.filename), f.lineno, f.name) for f in reversed(tb)
+                      if f.filename.startswith(TOOLKIT)), "?")
+        raise AppStartFailure(argv, "%s: %s (%s)" % (type(e).__name__, e, where)) from None
     finally:
         sys.argv = old_argv
         builtins.print = old_print
